@@ -6,6 +6,8 @@
 EXTENDS AshHost, Json, IOUtils, TLCExt, TLC, Integers
 
 CONSTANTS TMin, TMax          \* T_RX_ACK_MIN / T_RX_ACK_MAX of the ASH text, in ms
+(* recorded instants are rounded to whole milliseconds: an interval of exactly TMin / TMax may read 1 ms off *)
+InWindow(dt) == dt \in (TMin - 1) .. (TMax + 1)
 
 Traces == JsonDeserialize(IOEnv.TRACE_FILE)
 VARIABLES h, obs, o4, tw, tid, l
@@ -32,8 +34,8 @@ TNext == /\ l <= Len(Tr)
          /\ LET e == Tr[l] IN
               \/ e.a = "submit" /\ Apply(e, StepSubmit(h, e.id, e.pl), <<>>)
               \/ e.a = "recv" /\ e.late = 0 /\ Apply(e, StepRecv(h, e.fs), e.fs)
-              \/ e.a = "recv" /\ e.late = 1 /\ e.t - tw \in TMin .. TMax /\ Apply(e, StepRecvLate(h, e.fs), e.fs)
-              \/ e.a = "tick" /\ TimerEnabled(h) /\ e.t - tw \in TMin .. TMax /\ Apply(e, StepTick(h), <<>>)
+              \/ e.a = "recv" /\ e.late = 1 /\ InWindow(e.t - tw) /\ Apply(e, StepRecvLate(h, e.fs), e.fs)
+              \/ e.a = "tick" /\ TimerEnabled(h) /\ InWindow(e.t - tw) /\ Apply(e, StepTick(h), <<>>)
               \/ e.a = "end" /\ h.cur.id = 0 /\ h.q = <<>> /\ e.pending = <<>> /\ e.out = <<>>
                              /\ UNCHANGED <<h, obs, o4, tw>>
          /\ l' = l + 1
